@@ -166,16 +166,6 @@ def classify(kind, v, spec, py, rs):
         return None
     if isfloat and t is None and pk == "OK" and rk == "OK" and (f["prec"] is not None or f["alt"]):
         return "float-no-type-with-precision-or-alt"
-    if isfloat and special and (f["zero"] or f["align"] == "=" or f["alt"] or f["prec"] is not None):
-        return "float-special-values-zero-pad-alt"
-    if grp and pk != rk:
-        return "grouping-validation-differs"
-    if t == "n" and (pk != rk or py != rs):
-        return "n-type-handling"
-    if pk == "ERR" and rk == "OK" and kind == "int" and f["prec"] is not None and t in (None, "d", "b", "o", "x", "X", "n", "c"):
-        return "int-precision-not-rejected"
-    if kind == "int" and t in ("e", "E", "f", "F", "g", "G", "%") and (pk != rk or py != rs):
-        return "int-with-float-type"
     return None
 
 
